@@ -591,7 +591,14 @@ Definition count_rows (f : rt_row -> bool) (tbl : list rt_row) : nat := List.len
      and no other registration claims the same method+pattern;
    - every row of the table is one of the modelled registrations (a new route needs a model case);
    - every documented /v3 pattern is a modelled registration;
-   - the only router option set is NotFound (no PanicHandler etc. that would change what a crash means). *)
+   - NotFound is set, and no router field outside [allowed_router_opts] is assigned (no PanicHandler etc. that would
+     change what a crash means). *)
+(* router fields Configure may assign: NotFound (the 404 handler) and the four switches that only decide between a
+   router-level answer and NotFound for a request that matches no registration.  PanicHandler (changes what a handler
+   panic means) and the custom MethodNotAllowed / GlobalOPTIONS handlers are not among them. *)
+Definition allowed_router_opts : list string :=
+  ["NotFound"; "RedirectTrailingSlash"; "RedirectFixedPath"; "HandleMethodNotAllowed"; "HandleOPTIONS"].
+
 Definition route_table_ok (tbl : list rt_row) (opts : list (string * string)) : bool :=
   forallb row_wellformed tbl
   && forallb (fun r => Nat.eqb (count_rows (row_is r) tbl) 1 && Nat.eqb (count_rows (row_same_path r) tbl) 1) all_routes
@@ -600,7 +607,8 @@ Definition route_table_ok (tbl : list rt_row) (opts : list (string * string)) : 
        documented_v3
   && forallb (fun r => negb (is_v3 r) || existsb (fun d => String.eqb (fst d) (route_method r) && String.eqb (snd d) (route_pattern r)) documented_v3)
        all_routes
-  && forallb (fun o => String.eqb (fst o) "NotFound") opts.
+  && forallb (fun o => existsb (String.eqb (fst o)) allowed_router_opts) opts
+  && existsb (fun o => String.eqb (fst o) "NotFound") opts.
 
 (* ---- request types: what the model issues, against what the translator found in each Go handler ---- *)
 
@@ -790,26 +798,21 @@ Definition world_backend (w : world) (override : Z) (ready : bool) : backend :=
    http.Error sets Content-Type text/plain, there is no request block *)
 Definition default_handler : outcome := Resp 404 false (BJson true true false None).
 
-(* ---- what httprouter v1.3.0 does with a request that matches no registration (router.go ServeHTTP), with every
-   option at its default except NotFound (checked by [route_table_ok]).  This is a SPECIFICATION-level description of
-   the router (its radix tree is not modelled); it is trusted, and compared with the real router on every unrouted
-   case of the differential (status code of the answer). ---- *)
-
-Definition m_get : bytes := Eval vm_compute in pb "GET".
-Definition m_options : bytes := Eval vm_compute in pb "OPTIONS".
-Definition m_connect : bytes := Eval vm_compute in pb "CONNECT".
-
-Definition matches (tbl : list brow) (method path : bytes) : bool :=
-  match dispatch tbl method path with Some _ => true | None => false end.
-
-(* a tree exists for the method: some registration uses it *)
-Definition has_tree (tbl : list brow) (method : bytes) : bool := existsb (fun row => beq (br_method row) method) tbl.
+(* ---- a request that matches no registration ----
+   httprouter v1.3.0 (router.go ServeHTTP; every option at its default except NotFound -- checked by [route_table_ok])
+   then either answers BY ITSELF -- 301 (GET) / 307 redirect when its radix tree recommends the path with the trailing
+   slash toggled, or finds the cleaned path (CleanPath) case-insensitively; 200 + Allow for OPTIONS and 405 + Allow when
+   the path is registered under another method -- or hands the request to NotFound.  Which of the two happens depends on
+   the shape of the radix tree (e.g. GET /v3/kafka/ is redirected, GET /v3/kafka/c1/ is not), which is not modelled:
+   the router's choice is the TRUSTED function [router_answer] below (Some code = answered by the router with that
+   status code, None = handed to NotFound).  What IS modelled, and compared with the real router on every unrouted case
+   of every run, is a region in which the router certainly does not answer by itself ([router_level_possible] = false):
+   the path is not "*", its cleaned form is not the root, and neither the path nor its cleaned form, with or without a
+   trailing slash, fits any registration of any method when literal segments are compared without regard to ASCII case
+   and a parameter may be empty. *)
 
 Definition ends_with_slash (p : bytes) : bool := match rev p with c :: _ => c =? slash | [] => false end.
 Definition toggle_slash (p : bytes) : bytes := if ends_with_slash p then removelast p else p ++ [slash].
-
-(* trailing-slash recommendation: the path with its trailing slash removed (or added) is registered *)
-Definition tsr (tbl : list brow) (method path : bytes) : bool := matches tbl method (toggle_slash path).
 
 (* httprouter.CleanPath: empty and "." elements dropped, ".." removes the element before it, the result starts with "/"
    and keeps a trailing slash (also when the path ends in "/.") unless it is the root *)
@@ -841,45 +844,36 @@ Definition clean_path (p : bytes) : bytes :=
       end
   end.
 
-(* findCaseInsensitivePath: literal segments compared without regard to ASCII case *)
-Fixpoint match_segs_ci (pat : list bseg) (path : list bytes) : bool :=
+Fixpoint match_segs_loose (pat : list bseg) (path : list bytes) : bool :=
   match pat, path with
   | [], [] => true
-  | BLit s :: pr, x :: xr => beq (lower s) (lower x) && match_segs_ci pr xr
-  | BParam _ :: pr, x :: xr =>
-      match x, xr with
-      | [], [] => false
-      | _, _ => match_segs_ci pr xr
-      end
+  | BLit s :: pr, x :: xr => beq (lower s) (lower x) && match_segs_loose pr xr
+  | BParam _ :: pr, _ :: xr => match_segs_loose pr xr
   | _, _ => false
   end.
 
-Definition matches_ci (tbl : list brow) (method path : bytes) : bool :=
+Definition loosely_registered (tbl : list brow) (path : bytes) : bool :=
   match path with
-  | c :: rest => (c =? slash) && existsb (fun row => beq (br_method row) method && match_segs_ci (br_segs row) (split_on slash rest)) tbl
+  | c :: rest => (c =? slash) && existsb (fun row => match_segs_loose (br_segs row) (split_on slash rest)) tbl
   | [] => false
   end.
 
-Definition fixed_path (tbl : list brow) (method path : bytes) : bool :=
-  let c := clean_path path in matches_ci tbl method c || matches_ci tbl method (toggle_slash c).
+Definition star : Z := 42.
 
-(* Allow: the path is registered under another method (OPTIONS itself never counts) *)
-Definition allowed (tbl : list brow) (method path : bytes) : bool :=
-  existsb (fun row => negb (beq (br_method row) method) && negb (beq (br_method row) m_options)
-                      && matches tbl (br_method row) path) tbl.
+Definition router_level_possible (tbl : list brow) (path : bytes) : bool :=
+  let c := clean_path path in
+  beq path [star] || beq c [slash]
+  || loosely_registered tbl c || loosely_registered tbl (toggle_slash c)
+  || loosely_registered tbl path || loosely_registered tbl (toggle_slash path).
 
-(* Some code = the router answers by itself: 301 (GET) / 307 redirect to the path with the trailing slash toggled or to
-   the cleaned, case-corrected path; 200 + Allow for OPTIONS; 405 + Allow.  None = the request is handed to NotFound. *)
-Definition router_level (tbl : list brow) (method path : bytes) : option Z :=
-  if has_tree tbl method && negb (beq method m_connect) && negb (beq path [slash])
-     && (tsr tbl method path || fixed_path tbl method path)
-  then Some (if beq method m_get then 301 else 307)
-  else if beq method m_options then (if allowed tbl method path then Some 200 else None)
-  else if allowed tbl method path then Some 405 else None.
+(* the constraint on the trusted function that the differential checks on every unrouted case *)
+Definition router_answer_sound (tbl : list brow) (router_answer : bytes -> bytes -> option Z) : Prop :=
+  forall method path, router_level_possible tbl path = false -> router_answer method path = None.
 
 (* A request that matches a registration runs its handler.  One that matches none is answered by the router itself
-   ([router_level]: redirect / 405 / OPTIONS, no handler and no backend involved) or handed to NotFound. *)
-Definition serve (tbl : list brow) (method path : bytes) (reqbody : Z) (b : backend) (cfg : tree) : result :=
+   (no handler and no backend involved) or handed to NotFound. *)
+Definition serve (router_answer : bytes -> bytes -> option Z)
+           (tbl : list brow) (method path : bytes) (reqbody : Z) (b : backend) (cfg : tree) : result :=
   match dispatch tbl method path with
   | Some (row, ps) =>
       match br_route row with
@@ -887,7 +881,7 @@ Definition serve (tbl : list brow) (method path : bytes) (reqbody : Z) (b : back
       | None => ([], Crash)            (* a registration without a model case: excluded by [route_table_ok] *)
       end
   | None =>
-      match router_level tbl method path with
+      match router_answer method path with
       | Some code => ([], Resp code false BOpaque)
       | None => ([], default_handler)
       end
